@@ -144,6 +144,11 @@ def decide(pid, prop, cases, results, problems, tier, seed, wall, out_dir, repla
             inconcl.append(f"clause {c} evaluated {clauses.get(c, 0)} < {n} times")
 
     os.makedirs(out_dir, exist_ok=True)
+    if not replay:
+        import glob
+
+        for old in glob.glob(os.path.join(out_dir, f"replay-{pid}-{tier}-{seed}-*.json")):
+            os.remove(old)
     lines = []
     for key, k in known_open.items():
         lines.append(
